@@ -121,6 +121,10 @@ type Engine struct {
 	failures []Failure
 	hintSeq  uint64
 	scope    []uintptr // stack of the substituted NewHint call (innermost first)
+	// scopePending: the scope is settled at the first operation after the substituted hint:
+	// it is the innermost function that is active both when the hint is requested and when
+	// its outputs are first used (a helper that merely wraps NewHint is not the site)
+	scopePending bool
 	failSeen bool
 	inScope  bool
 	failSeq  uint64
@@ -332,6 +336,26 @@ func funcEntry(pc uintptr) uintptr {
 	return 0
 }
 
+// settleScope narrows the recorded hint stack to the function that consumes the outputs.
+func (e *Engine) settleScope() {
+	e.scopePending = false
+	sc := e.scope
+	cur := trimToRepo(captureStack(3))
+	a, b := len(sc)-1, len(cur)-1
+	for a >= 0 && b >= 0 && sc[a] == cur[b] {
+		a--
+		b--
+	}
+	switch {
+	case a < 0:
+		// the whole hint stack is still there (cannot happen for a returned call): keep it
+	case b >= 0 && funcEntry(sc[a]) == funcEntry(cur[b]):
+		e.scope = sc[a:] // same function, other call site inside it
+	case a+1 < len(sc):
+		e.scope = sc[a+1:] // the function that requested the hint has returned: its caller consumes the outputs
+	}
+}
+
 // scopeCheck: is the function that issued the substituted hint still on the stack, with
 // the same chain of callers?
 func (e *Engine) scopeCheck() bool {
@@ -350,6 +374,9 @@ func (e *Engine) scopeCheck() bool {
 }
 
 func (e *Engine) fail(kind, msg string) {
+	if e.scopePending {
+		e.settleScope()
+	}
 	if e.scope != nil && !e.failSeen {
 		e.failSeen = true
 		e.inScope = e.scopeCheck()
@@ -375,6 +402,9 @@ func (e *Engine) newV(x fr.Element) *V {
 
 // el is val without a heap allocation for constants (tmp lives on the caller's stack).
 func (e *Engine) el(i frontend.Variable, tmp *V) *V {
+	if e.scopePending {
+		e.settleScope()
+	}
 	if v, ok := i.(*V); ok {
 		return v
 	}
@@ -387,6 +417,9 @@ func (e *Engine) el(i frontend.Variable, tmp *V) *V {
 
 // val converts any frontend.Variable (engine value or Go constant) to an engine value.
 func (e *Engine) val(i frontend.Variable) *V {
+	if e.scopePending {
+		e.settleScope()
+	}
 	switch t := i.(type) {
 	case *V:
 		return t
